@@ -357,6 +357,13 @@ fn run_shard<C: Serialize + Clone + std::fmt::Debug>(spec: &Spec<C>, tier: Tier,
                 }
                 Ok(())
             }
+            Ok(Err(f)) if f.signature == "bad-case" => {
+                if counting {
+                    let cj = serde_json::to_value(&case).unwrap_or(Value::Null);
+                    stats.borrow_mut().harness_panics.push(format!("generator produced a case outside the property's domain: {} on {}", f.message, cj));
+                }
+                Ok(())
+            }
             Ok(Err(f)) => {
                 if let Some(k) = known_match(known, spec.id, &f) {
                     if counting {
@@ -491,6 +498,10 @@ pub fn replay_file<C: DeserializeOwned>(id: &str, path: &str, check: fn(&C, &mut
         Ok(Ok(())) => {
             say(&format!("replay {path}: property {id} holds on this case"));
             0
+        }
+        Ok(Err(f)) if f.signature == "bad-case" => {
+            say(&format!("replay {path}: the case lies outside the domain of {id} ({}); nothing to decide", f.message));
+            2
         }
         Ok(Err(f)) => {
             say(&format!("replay {path}: {} — {}", f.signature, f.message));
